@@ -176,8 +176,67 @@ fn c09_one(chk: &Check, p: &Pnm) {
     }
 }
 
+/// History independence of the (pure) encoder: every ORDERED PAIR of messages (a, b) over a
+/// boundary domain, on one thread: the six encoding calls are made for `a` and then for `b`, and
+/// b's results are judged. A result cached from the previous call under a key that does not
+/// separate the two messages shows here and nowhere in a sweep that judges each message alone.
+fn c09_pairs(chk: &Check, tier: Tier) -> u64 {
+    let chans: Vec<u8> = if tier.thorough() { (0..16).collect() } else { vec![0, 1, 2, 7, 8, 14, 15] };
+    let numbers: Vec<u16> = vec![0, 1, 127, 128, 129, 8191, 8192, 8193, 16256, 16383];
+    let v14: Vec<u16> = vec![0, 1, 127, 128, 8192, 16383];
+    let v7: Vec<u16> = vec![0, 1, 127];
+    let mut dom: Vec<Pnm> = Vec::new();
+    for &c in &chans {
+        for &number in &numbers {
+            for reg in [false, true] {
+                for &value in &v14 {
+                    dom.push(Pnm { ch: c, number, value, reg, kind: Kind::Entry14 });
+                }
+                for &value in &v7 {
+                    for kind in [Kind::Entry7, Kind::Inc, Kind::Dec] {
+                        dom.push(Pnm { ch: c, number, value, reg, kind });
+                    }
+                }
+            }
+        }
+    }
+    #[inline]
+    fn calls(m: ParameterNumberMessage) -> [[Option<(u8, u8, u8)>; 4]; 6] {
+        let a: [Option<RawShortMessage>; 4] = m.to_short_messages(DataEntryByteOrder::MsbFirst);
+        let b: [Option<StructuredShortMessage>; 4] = m.to_short_messages(DataEntryByteOrder::MsbFirst);
+        let c: [Option<RawShortMessage>; 4] = m.to_short_messages(DataEntryByteOrder::LsbFirst);
+        let d: [Option<StructuredShortMessage>; 4] = m.to_short_messages(DataEntryByteOrder::LsbFirst);
+        let e: [Option<RawShortMessage>; 4] = m.into();
+        let f: [Option<StructuredShortMessage>; 4] = m.into();
+        [slots(&a), slots(&b), slots(&c), slots(&d), slots(&e), slots(&f)]
+    }
+    let built: Vec<ParameterNumberMessage> = dom.iter().map(|p| p.build()).collect();
+    let wants: Vec<[[Option<(u8, u8, u8)>; 4]; 2]> = dom.iter().map(|p| [expected_slots(p, false), expected_slots(p, true)]).collect();
+    (0..dom.len()).into_par_iter().for_each(|i| {
+        let r = catch(|| {
+            for j in 0..dom.len() {
+                let _ = std::hint::black_box(calls(built[i]));
+                let got = calls(built[j]);
+                let w = &wants[j];
+                let want = [w[0], w[0], w[1], w[1], w[0], w[0]];
+                if got != want {
+                    let k = (0..6).find(|k| got[*k] != want[*k]).unwrap();
+                    let what = ["to_short_messages::<Raw>(MsbFirst)", "to_short_messages::<Structured>(MsbFirst)", "to_short_messages::<Raw>(LsbFirst)", "to_short_messages::<Structured>(LsbFirst)", "Into<[Option<Raw>;4]>", "Into<[Option<Structured>;4]>"][k];
+                    vio!(chk, "C09", "encoding-depends-on-previous-call", what, format!("pnmpair|{:?}|{:?}", dom[i], dom[j]), format!("after encoding {:?}, {} of {:?} gives {:?}, expected {:?}", dom[i], what, dom[j], got[k], want[k]));
+                }
+            }
+        });
+        if let Err(p) = r {
+            vio!(chk, "C09", "panics-on-valid-input", "encoder-pairs", format!("pnmpair|{:?}|*", dom[i]), format!("encoder panicked in the pair sweep after {:?}: {}", dom[i], p));
+        }
+    });
+    let n = (dom.len() * dom.len()) as u64;
+    chk.push("ordered_pairs", json!({"domain": dom.len(), "pairs": n}));
+    n
+}
+
 pub fn run_c09(chk: &Check, tier: Tier) {
-    chk.rule("8 constructors x 16 channels x numbers x values x 2 byte orders x {Raw, Structured} (+ array conversion): accessors and every slot of the encoding against the statement's layout. quick: all 16384 numbers x boundary values and all values x boundary numbers on every channel (each dimension complete, the others on boundaries); thorough: additionally the FULL number x value product (16384 x (16384 + 3x128) messages per registered flag) on channels 0 and 15 (the channel enters the encoding only through the status nibble). non-trivial = distinct messages evaluated whose number and value are both non-zero");
+    chk.rule("8 constructors x 16 channels x numbers x values x 2 byte orders x {Raw, Structured} (+ array conversion): accessors and every slot of the encoding against the statement's layout. quick: all 16384 numbers x boundary values and all values x boundary numbers on every channel (each dimension complete, the others on boundaries); thorough: additionally the FULL number x value product (16384 x (16384 + 3x128) messages per registered flag) on channels 0 and 15 (the channel enters the encoding only through the status nibble). non-trivial = distinct messages evaluated whose number and value are both non-zero. History independence: every ordered pair of messages over a boundary domain (7 (16) channels x 10 numbers x both kinds x 15 value/type combinations) encoded back to back on one thread, the second judged");
     let t0 = Instant::now();
     let cap = Duration::from_secs(if tier.thorough() { 1200 } else { 120 });
     let evals = AtomicU64::new(0);
@@ -249,6 +308,8 @@ pub fn run_c09(chk: &Check, tier: Tier) {
     }
     chk.add_eval(evals.load(Ordering::Relaxed));
     chk.add_nontrivial(nontriv.load(Ordering::Relaxed));
+    let pairs = c09_pairs(chk, tier);
+    chk.add_eval(pairs);
     chk.sample(json!({"message": "registered_14_bit(ch 3, number 421, value 15000)", "MsbFirst": [[0xB3, 101, 3], [0xB3, 100, 37], [0xB3, 6, 117], [0xB3, 38, 24]], "LsbFirst": [[0xB3, 101, 3], [0xB3, 100, 37], [0xB3, 38, 24], [0xB3, 6, 117]]}));
     chk.sample(json!({"message": "non_registered_decrement(ch 0, number 16383, value 127)", "slots": [[0xB0, 99, 127], [0xB0, 98, 127], [0xB0, 97, 127], null]}));
 }
